@@ -35,7 +35,18 @@ def restore_defaults():
     hl7apy._DEFAULT_VALIDATION_LEVEL = l
 
 
-def globals_digest():
+def purge_version_modules(version):
+    """Forget a version library so that its next use imports it again (cold-import runs)."""
+    import sys
+    name = 'hl7apy.v' + version.replace('.', '_')
+    for k in list(sys.modules):
+        if k == name or k.startswith(name + '.'):
+            del sys.modules[k]
+    from models import tables as T
+    T._cache.pop(version, None)
+
+
+def globals_digest(ids=True, skip=()):
     """Digest of the process-global objects every call can reach (DESIGN §5)."""
     import sys
     import hl7apy
@@ -49,9 +60,9 @@ def globals_digest():
     put('libs', sorted(hl7apy.SUPPORTED_LIBRARIES.items()))
     for name in sorted(hl7apy.SUPPORTED_LIBRARIES.values()):
         m = sys.modules.get(name)
-        if m is not None:
+        if m is not None and name not in skip:
             put(name, sorted((k, v.__module__ + '.' + v.__qualname__) for k, v in m.BASE_DATATYPES.items()))
-            put(name, 'elements', sorted(m.ELEMENTS), [id(m.ELEMENTS[k]) for k in sorted(m.ELEMENTS)])
+            put(name, 'elements', sorted(m.ELEMENTS), [id(m.ELEMENTS[k]) for k in sorted(m.ELEMENTS)] if ids else None)
     for cls in (core.Element, core.SupportComplexDataType, core.SubComponent, core.Component, core.Field,
                 core.Segment, core.Group, core.Message, core.ElementProxy):
         ca = getattr(cls, 'cls_attrs', None)
@@ -101,7 +112,17 @@ class ThreadWorld:
         case, cfg = self.case, self.cfg
         actors = case['actors']
         restore_defaults()
-        g0 = globals_digest()
+        cold_import = cfg.get('cold_import')
+        if cold_import:
+            # only ever inside the forked child of a cold run (props/c19.py)
+            import os
+            import hl7apy
+            from simkit import importlock
+            importlock.install()
+            for v in cold_import:
+                purge_version_modules(v)
+        skip = ['hl7apy.v' + v.replace('.', '_') for v in (cold_import or ())]
+        g0 = globals_digest(ids=not cold_import, skip=skip)
         seed = case.get('seed', 0)
         threads_first = cfg.get('order') == 'threads_first'
 
@@ -109,7 +130,7 @@ class ThreadWorld:
             # every call of every actor alone, in program order, same process
             for aid, prog in enumerate(actors):
                 self.expected[aid] = [corpus.run_call(c) for c in prog]
-            if globals_digest() != g0:
+            if globals_digest(ids=not cold_import, skip=skip) != g0:
                 self.violate('C19.globals', 'process-global state changed by sequential calls', 'digest differs')
 
         if not threads_first:
@@ -128,7 +149,7 @@ class ThreadWorld:
             self.capped = k.run()
         finally:
             k.shutdown()
-        g_after_threads = globals_digest()
+        g_after_threads = globals_digest(ids=not cold_import, skip=skip)
         if threads_first:
             # the concurrent phase met every lazily initialised path of the library cold; the
             # sequential reference comes afterwards
